@@ -18,7 +18,7 @@ pub static PROP: PropDef = PropDef {
            section over the limit, FIN before HEADERS, stream opened and abandoned} (the last two only towards a server), the rest healthy with generated bodies; operations of all streams merged in tape order; the h3 end's streams start with unlimited / zero / small send credit (grants are scheduler moves), so that faults also arrive while a write is blocked; a raw server acts on a request stream as soon as the client opened it; schedule from the tape. \
            oracle: healthy requests: the application sees exactly its own body bytes and end of message, and the bytes h3 wrote back on that stream parse (reference) to exactly HEADERS + DATA(own echo) and FIN; \
            faulty requests: the first error reported on that request, if any, is stream-level with the right code (RemoteTerminate{peer's code} / StreamError H3_MESSAGE_ERROR / HeaderTooBig / StreamError H3_REQUEST_INCOMPLETE) and a fault that must surface does (a STOP_SENDING because of which the transport refused one of h3's writes must have been reported by the end of the run); \
-           connection: zero close calls, the driver never reports an error, every announced request is accepted, and (client role) one more request started after everything settled is served. non-trivial = >= 1 faulty and >= 1 healthy request whose operations interleave; distinct by (scenario, schedule)",
+           connection: zero close calls, the driver never reports an error, every announced request is accepted, and one more request started after everything settled is served (both roles). non-trivial = >= 1 faulty and >= 1 healthy request whose operations interleave; distinct by (scenario, schedule)",
     assumptions: &["simulated transport, see C01", "a STOP_SENDING that arrives after the endpoint finished writing is not observable: then no error is expected"],
     tape_len: 260,
     random_cases: |t| t.pick(120_000, 6_000_000),
@@ -117,6 +117,13 @@ async fn server_app(net: Net, o: Shared<Obs>, sp: Spawner) {
                 let o2 = o.clone();
                 sp.spawn(format!("handler-{k}"), async move {
                     if k >= o2.borrow().reqs.len() {
+                        // the follow-up request that arrives after everything else has settled
+                        if let Ok((_q, mut s)) = r.resolve_request().await {
+                            let _ = s.send_response(http::Response::builder().status(200).body(()).unwrap()).await;
+                            let _ = s.send_data(Bytes::from_static(b"still alive")).await;
+                            let _ = s.finish().await;
+                            std::future::pending::<()>().await;
+                        }
                         return;
                     }
                     let mut s = match r.resolve_request().await {
@@ -420,6 +427,11 @@ pub fn run_scn(s: &Scn, merge: &mut Tape, sched: &mut Tape, ctx: &mut Ctx) -> Ve
     if switches >= s.reqs.len() {
         interleaved = true;
     }
+    if s.server {
+        // the follow-up request: one more request once everything has settled
+        let key = s.reqs.len() + 1;
+        ops.extend([PeerOp::Barrier, PeerOp::OpenBidi(key), PeerOp::Write(key, peer::simple_request_headers()), PeerOp::Fin(key)]);
+    }
     if !s.server {
         // the follow-up request: the raw server answers it with a small body
         let key = s.reqs.len() + 1;
@@ -555,6 +567,15 @@ pub fn run_scn(s: &Scn, merge: &mut Tape, sched: &mut Tape, ctx: &mut Ctx) -> Ve
                 ctx.class("fault_bad_trailers");
             }
         }
+    }
+    if s.server {
+        let written = net.written(4 * s.reqs.len() as u64, Side::Server);
+        let seg = rf::segment(&written);
+        let data: Vec<u8> = seg.events.iter().filter_map(|e| if let Ev::Data(d) = e { Some(d.clone()) } else { None }).flatten().collect();
+        if data != b"still alive" {
+            return fail(format!("after the stream-scoped faults the connection must still serve a new request; on the follow-up request's stream the server wrote {} body bytes ({} frames)", data.len(), seg.events.len()));
+        }
+        ctx.class("follow_up_request_served");
     }
     if !s.server {
         match &obs.follow_up {
